@@ -1,11 +1,20 @@
 """C14 - Timeouts cancel cooperatively and every job ends in a terminal status.
 
-Tie: (a) translator fact - the JobStatus enum of the source (names -> codes) regenerated into Generated/Facts_C14.v and
-consumed by theorem C14_status_codes; (b) trace acceptance - real searches with a timeout are run with a logging storage
-(every status write) and run-functions that log start / every status poll / return under one lock; two sentinels are
-logged 0.4 s and 1.9 s after the deadline.  The extracted Coq oracle ok_C14 replays every job's events on the status machine and checks the
-results table (one row per job, terminal status = last write, returned value kept, jobs running across the deadline were
-told to cancel and are reported CANCELLED, no run-function activity after search() returned).
+Tie:
+(a) translator fact - the JobStatus enum of the source (names -> codes) regenerated into Generated/Facts_C14.v and consumed
+    by theorem C14_status_codes;
+(b) trace acceptance by the per-job oracle ok_C14 (entry 1401) - real searches / evaluators with a timeout are run with a
+    logging storage (every status write) and run-functions that log start / every status poll / return under one lock; two
+    sentinels are logged 0.4 s and 1.9 s after the deadline.  The extracted oracle replays every job's events on the status
+    machine and checks the results table (one row per job, terminal status = last write, returned value kept, jobs running
+    across the deadline were told to cancel and are reported CANCELLED, no run-function activity after search() returned);
+(c) trace acceptance by the GLOBAL model (entry 1402, Accept.v) - the same run also logs, through wrappers set on the
+    evaluator INSTANCE (nothing in /repo is edited), the calls of submit / gather / close, _update_job_when_done (execute()
+    returns) and _on_done (the job was collected), the return of search(), a further search() call and an early sentinel
+    logged well before the deadline.  The extracted acceptor explains every observed event by events of the global model
+    (Global.v: jobs, worker semaphore, time budget, phase of the main thread, rows), fails at the first event the model cannot
+    do, and compares the results table the model predicts with the real one.  By theorem C14_accepted_trace_is_model_run an
+    accepted trace is a run of the model, for which the theorems (a)-(f) of Property.v hold.
 """
 import ast
 import asyncio
@@ -23,17 +32,36 @@ LEVEL = "proof"
 FACTS = ["job_status"]
 TRUSTED = [
     "real time: the deadline itself is not observed; two sentinels logged 0.4 s and 1.9 s after it: a job started before the first and not returned before the second was running across the deadline and must have been told to cancel before the second (1.5 s of slack for scheduling latency); "
-    "a job finishing within that window may legally end DONE or CANCELLED",
-    "asyncio.wait_for / shield / the thread pool behave as documented; status reads and writes are atomic under the harness lock",
+    "a job finishing within that window may legally end DONE or CANCELLED; an early sentinel due 0.5 s BEFORE the deadline (a timer of the evaluator's own event loop, so ordered with the wait_for timeouts by their deadlines, not by the load) must precede every CANCELLING write of that search() call; the second sentinel is logged after two round trips through the evaluator's event loop (when it runs), so a freeze of the whole machine across the deadline cannot put it before the CANCELLING writes that were due",
+    "asyncio.wait_for / shield / the thread and process pools behave as documented; status reads and writes are atomic under the harness lock; "
+    "the wrappers on the evaluator instance (submit, gather, close, _update_job_when_done, _on_done) only log and delegate",
+    "the acceptor places the two unobservable events as late as possible (budget expiry just before the first CANCELLING it must explain, the stop test right after gather returns); "
+    "time.time() (stop test) and the event loop's monotonic clock (wait_for) are assumed not to step against each other during a case",
 ]
-ASSUMPTIONS = ["run-functions poll job.status and return soon after seeing CANCELLING", "backends covered: serial, thread, process (process: fresh interpreter, log shared through a multiprocessing manager); loky is not"]
-RULE = ("timeouts {1,2}s x workers {1,2,4} x backend {serial, thread, process} x mode {search(timeout), search(max_evals, timeout) plain/strict, evaluator.timeout + gather, "
-        "evaluator.timeout + search(max_evals)} x per-job behaviours (returned value 1000+id or the falsy 0; short jobs finishing before the deadline, long jobs polling at "
-        "different intervals until CANCELLING, jobs that keep working after seeing it); non-trivial = DONE and CANCELLED rows in one run")
+ASSUMPTIONS = ["run-functions poll job.status and return soon after seeing CANCELLING (or are short and never poll)",
+               "backends covered: serial, thread, process (fresh interpreter, log shared through a multiprocessing manager); loky in the thorough tier"]
+RULE = ("timeouts {1,2}s x workers {1,2,4} x backend {serial, thread, process, loky(thorough)} x search class {RandomSearch, CBO(DUMMY surrogate)} x mode {search(timeout), "
+        "search(max_evals, timeout) plain/strict, evaluator.timeout + gather, evaluator.timeout + search(max_evals), two timed search() calls in a row on one search object, "
+        "evaluator.timeout + gather(BATCH) + close() while jobs are in CANCELLING} x per-job behaviours (returned value 1000+id or the falsy 0; short jobs finishing before the deadline, "
+        "jobs that never poll, jobs finishing within +-60 ms of the deadline, long jobs polling at different intervals until CANCELLING and returning at once or after more work); "
+        "non-trivial = DONE and CANCELLED rows in one run")
 CLAUSE = {1: "illegal_status_sequence_or_stale_poll", 2: "no_terminal_status", 3: "row_count", 4: "row_status", 5: "value_not_kept",
           6: "ran_past_deadline_without_cancelling", 7: "cancelling_then_done", 8: "activity_after_search_returned",
           9: "submitted_long_after_expiry"}
 F_CHECK = 1401
+F_ACCEPT = 1402
+# observed event kinds (see Entry.v)
+K_W, K_START, K_POLL, K_RET, K_FIN, K_SUBMIT, K_GIN, K_GOUT, K_S0, K_S, K_CIN, K_COUT, K_RETURN, K_AGAIN, K_COLLECTED = range(15)
+OLD_KINDS = (K_W, K_START, K_POLL, K_RET, K_S)
+ST_NAME = {0: "READY", 1: "RUNNING", 2: "DONE", 3: "CANCELLING", 4: "CANCELLED"}
+# clause of a rejection by the global acceptor: (kind, status of a write) -> name
+ACCEPT_CLAUSE = {
+    (K_W, 0): "model:submitted_after_the_stop_test_or_outside_the_loop", (K_W, 1): "model:running_without_free_worker_or_outside_gather",
+    (K_W, 3): "model:cancelling_without_exhausted_budget", (K_W, 4): "model:cancelled_before_the_run_function_returned", (K_W, 2): "model:done_not_collectable",
+    K_START: "model:run_function_started_unexpectedly", K_POLL: "model:poll_saw_another_status_than_written_last", K_RET: "model:run_function_returned_twice_or_unstarted",
+    K_FIN: "model:execute_returned_before_the_run_function", K_SUBMIT: "model:submit_inside_gather", K_GIN: "model:gather_reentered", K_GOUT: "model:gather_returned_with_nothing_collected",
+    K_S0: "model:cancelling_before_the_early_sentinel", K_S: "model:sentinel", K_CIN: "model:close_inside_gather", K_COUT: "close_left_job_unsettled",
+    K_RETURN: "model:returned_before_close", K_AGAIN: "model:search_called_again_before_return", K_COLLECTED: "model:collected_without_done_or_before_execute_returned"}
 
 
 def facts(repo):
@@ -67,138 +95,288 @@ def valof(plan, jid):
     return 0 if len(b) > 4 and b[4] == "zero" else 1000 + jid
 
 
+def job_no(job):
+    return int(job.id.split(".")[1])
+
+
+# ---------------------------------------------------------------------------------------------------------------------
+# the run-function bodies (shared by the in-process backends and, through c14_child, by the process / loky backends)
+#   behaviour = [kind, dur, every, extra, value]
+#     short  : polls every `every` until `dur` has passed, then returns (never waits for CANCELLING)
+#     nopoll : sleeps `dur` once, never reads the status
+#     long   : polls every `every` until it sees CANCELLING, then works `extra` more, polls once more, returns
+# ---------------------------------------------------------------------------------------------------------------------
+def run_body(job, plan, cap, emit, sleep, CANCELLING):
+    """generator-free synchronous body; `sleep` blocks. Returns the value."""
+    jid = job_no(job)
+    kind, dur, every, extra = plan[jid % len(plan)][:4]
+    emit(jid, K_START, 0)
+    if kind == "nopoll":
+        sleep(dur)
+    else:
+        t0 = time.time()
+        while time.time() - t0 < (dur if kind == "short" else cap):
+            sleep(every)
+            s = emit(jid, K_POLL, job)
+            if s is CANCELLING:
+                if extra:
+                    sleep(extra)
+                    emit(jid, K_POLL, job)
+                break
+    v = valof(plan, jid)
+    emit(jid, K_RET, v)
+    return v
+
+
+async def run_body_async(job, plan, cap, emit, CANCELLING):
+    jid = job_no(job)
+    kind, dur, every, extra = plan[jid % len(plan)][:4]
+    emit(jid, K_START, 0)
+    if kind == "nopoll":
+        await asyncio.sleep(dur)
+    else:
+        t0 = time.time()
+        while time.time() - t0 < (dur if kind == "short" else cap):
+            await asyncio.sleep(every)
+            s = emit(jid, K_POLL, job)
+            if s is CANCELLING:
+                if extra:
+                    await asyncio.sleep(extra)
+                    emit(jid, K_POLL, job)
+                break
+    v = valof(plan, jid)
+    emit(jid, K_RET, v)
+    return v
+
+
+def instrument(evaluator, emit, hooks):
+    """log the calls of the evaluator's entry points through attributes of the INSTANCE (the class in /repo is untouched);
+    hooks["after_submit"] (set by drive) is called once the evaluator's event loop exists"""
+    o_submit, o_gather, o_close = evaluator.submit, evaluator.gather, evaluator.close
+    o_upd, o_done = evaluator._update_job_when_done, evaluator._on_done
+
+    def submit(args_list):
+        emit(0, K_SUBMIT, len(args_list))
+        r = o_submit(args_list)
+        if hooks.get("after_submit"):
+            hooks["after_submit"]()
+        return r
+
+    def gather(*a, **k):
+        emit(0, K_GIN, 0)
+        try:
+            return o_gather(*a, **k)
+        finally:
+            emit(0, K_GOUT, 0)
+
+    def close():
+        emit(0, K_CIN, 0)
+        try:
+            return o_close()
+        finally:
+            emit(0, K_COUT, 0)
+
+    def upd(job, output):
+        emit(job_no(job), K_FIN, 0)
+        return o_upd(job, output)
+
+    def done(job):
+        r = o_done(job)
+        emit(job_no(job), K_COLLECTED, 0)
+        return r
+
+    evaluator.submit, evaluator.gather, evaluator.close = submit, gather, close
+    evaluator._update_job_when_done, evaluator._on_done = upd, done
+
+
+def make_search(case, problem, evaluator, d):
+    from deephyper.hpo import CBO, RandomSearch
+
+    if case.get("search", "random") == "cbo":
+        return CBO(problem, evaluator, random_state=1, log_dir=d, surrogate_model="DUMMY")
+    return RandomSearch(problem, evaluator, random_state=1, log_dir=d)
+
+
+def drive(case, evaluator, emit, snapshot, hooks):
+    """Run the scenario of `case` on an instrumented evaluator. emit(j, kind, arg) appends to the shared log;
+    snapshot() returns a copy of it. Returns (table, late, trace)."""
+    from deephyper.evaluator import JobStatus
+    from deephyper.hpo import HpProblem
+
+    T = case["timeout"]
+    mode = case.get("mode", "search")
+    timers = []
+    early = {}
+
+    def second_sentinel():
+        # two round trips through the evaluator's event loop first (when it is running): every wait_for timeout that was due
+        # when this thread woke up has then been turned into its CANCELLING write, also after a freeze of the whole machine
+        for _ in range(2):
+            loop = evaluator.loop
+            try:
+                if loop is not None and not loop.is_closed() and loop.is_running():
+                    ev = threading.Event()
+                    loop.call_soon_threadsafe(ev.set)
+                    ev.wait(1.0)
+            except RuntimeError:
+                pass
+        emit(0, K_S, 0)
+
+    def arm(t_budget):
+        """sentinels of the search() call / evaluator budget that starts now"""
+        ts = [threading.Timer(t_budget + 0.4, emit, (0, K_S, 0)), threading.Timer(t_budget + 1.9, second_sentinel)]
+        for t in ts:
+            t.daemon = True
+            t.start()
+        timers.extend(ts)
+        # the early sentinel is a timer of the evaluator's own event loop, due 0.5 s before the deadline and set at the first submit
+        # of the call: the loop fires its timers in the order of their deadlines, so it precedes the wait_for timeouts of a fresh
+        # budget whatever the load (the budget starts after this point, so the margin is at least 0.5 s)
+        early["at"], early["fired"] = time.time() + t_budget - 0.5, False
+
+        def after_submit():
+            hooks["after_submit"] = None
+            evaluator.loop.call_later(max(0.0, early["at"] - time.time()), fire_early)
+
+        hooks["after_submit"] = after_submit
+
+    def fire_early():
+        if not early["fired"]:
+            early["fired"] = True
+            emit(0, K_S0, 0)
+
+    def returned_early():
+        """the call returned (its loop is closed) before the early sentinel was due: this instant is still before it"""
+        if early and not early["fired"] and time.time() < early["at"]:
+            fire_early()
+
+    def rows_of_df(df):
+        out = []
+        if df is not None:
+            for _, row in df.iterrows():
+                try:
+                    o = int(float(row["objective"]))
+                except (TypeError, ValueError):
+                    o = -1
+                out.append([int(row["job_id"]), int(JobStatus[row["job_status"]].value), o])
+        return out
+
+    def rows_of_jobs(jobs):
+        out = []
+        for job in jobs:
+            o = job.output
+            if isinstance(o, dict):
+                o = o.get("objective")
+            out.append([job_no(job), int(job.status.value), int(o) if isinstance(o, (int, float)) else -1])
+        return out
+
+    problem = HpProblem()
+    problem.add_hyperparameter((0.0, 10.0), "x")
+    table = []
+    settle = 0.3
+    with tempfile.TemporaryDirectory(prefix="vp_c14_") as d:
+        if mode == "evaluator":
+            # evaluator-level timeout with more jobs submitted than workers: some jobs are still queued at the deadline
+            evaluator.timeout = T
+            arm(T)
+            evaluator.submit([{"x": float(i)} for i in range(case["njobs"])])
+            jobs = evaluator.gather("ALL")
+            evaluator.close()
+            table = rows_of_jobs(jobs)
+        elif mode == "early_close":
+            # close() right after the first job was gathered, the others are in CANCELLING and still working
+            evaluator.timeout = T
+            evaluator.submit([{"x": float(i)} for i in range(case["njobs"])])
+            evaluator.gather("BATCH", 1)
+            evaluator.close()
+            table = rows_of_jobs(evaluator.jobs_done)
+            settle = case.get("settle", 1.3)
+        else:
+            search = make_search(case, problem, evaluator, d)
+            if mode == "two_calls":
+                # the first call runs without sentinels; the pair (and the early one) belongs to the second call
+                search.search(timeout=case["first_timeout"])
+                emit(0, K_RETURN, 0)
+                emit(0, K_AGAIN, 1)
+                arm(T)
+                df = search.search(timeout=T)
+            else:
+                arm(T)
+                if mode == "search":
+                    df = search.search(timeout=T)
+                elif mode == "evtimeout_search":
+                    # the time budget is set on the evaluator, the search call has no `timeout` of its own
+                    evaluator.timeout = T
+                    df = search.search(max_evals=case["max_evals"])
+                elif mode == "search_max":
+                    df = search.search(max_evals=case["max_evals"], timeout=T)
+                else:  # strict budget that may be hit in the middle of a batch
+                    df = search.search(max_evals=case["max_evals"], timeout=T, max_evals_strict=True)
+            table = rows_of_df(df)
+        returned_early()
+        emit(0, K_RETURN, 0)
+        n_at_return = len(snapshot())
+        time.sleep(settle)
+        for t in timers:
+            t.cancel()
+        tr = snapshot()
+        late = sum(1 for e in tr[n_at_return:] if e[1] in (K_START, K_POLL, K_RET))
+    return table, late, tr
+
+
 def run_case(case):
     from deephyper.evaluator import Evaluator, JobStatus
     from deephyper.evaluator.storage import MemoryStorage
-    from deephyper.hpo import HpProblem, RandomSearch
 
     lock = threading.RLock()
     trace = []
-    vals = {}
     plan = case["plan"]
-    T = case["timeout"]
-    cap = T + 3.5
+    cap = case["timeout"] + 3.5
+    t00 = time.time()
+
+    def ms():  # diagnostic only: never compared
+        return int((time.time() - t00) * 1000)
 
     class LoggingStorage(MemoryStorage):
         def store_job_status(self, job_id, job_status):
             with lock:
                 super().store_job_status(job_id, job_status)
-                trace.append([int(job_id.split(".")[1]), 0, int(job_status)])
+                trace.append([int(job_id.split(".")[1]), K_W, int(job_status), ms()])
 
-    def behaviour(jid):
-        return plan[jid % len(plan)]
-
-    def poll(job, jid):
+    def emit(j, kind, arg):
         with lock:
-            s = job.status
-            trace.append([jid, 2, int(s.value)])
-        return s
+            if kind == K_POLL:  # the read and its log entry are one atomic step
+                s = arg.status
+                trace.append([j, K_POLL, int(s.value), ms()])
+                return s
+            trace.append([j, kind, arg, ms()])
 
-    def ret(jid):
-        v = valof(plan, jid)
+    def snapshot():
         with lock:
-            trace.append([jid, 3, 0])
-            vals[jid] = v
-        return v
+            return [list(e) for e in trace]
 
     async def run_async(job):
-        jid = int(job.id.split(".")[1])
-        kind, dur, every, extra = behaviour(jid)[:4]
-        with lock:
-            trace.append([jid, 1, 0])
-        t0 = time.time()
-        while time.time() - t0 < (dur if kind == "short" else cap):
-            await asyncio.sleep(every)
-            s = poll(job, jid)
-            if s is JobStatus.CANCELLING:
-                if extra:
-                    await asyncio.sleep(extra)
-                    poll(job, jid)
-                break
-        return ret(jid)
+        return await run_body_async(job, plan, cap, emit, JobStatus.CANCELLING)
 
     def run_sync(job):
-        jid = int(job.id.split(".")[1])
-        kind, dur, every, extra = behaviour(jid)[:4]
-        with lock:
-            trace.append([jid, 1, 0])
-        t0 = time.time()
-        while time.time() - t0 < (dur if kind == "short" else cap):
-            time.sleep(every)
-            s = poll(job, jid)
-            if s is JobStatus.CANCELLING:
-                if extra:
-                    time.sleep(extra)
-                    poll(job, jid)
-                break
-        return ret(jid)
+        return run_body(job, plan, cap, emit, time.sleep, JobStatus.CANCELLING)
 
-    problem = HpProblem()
-    problem.add_hyperparameter((0.0, 10.0), "x")
     storage = LoggingStorage()
     backend = case["backend"]
     evaluator = Evaluator.create(run_async if backend == "serial" else run_sync, method=backend,
                                  method_kwargs={"num_workers": case["workers"], "storage": storage})
-    def sentinel():
-        with lock:
-            trace.append([0, 9, 0])
-
-    mode = case.get("mode", "search")
-    with tempfile.TemporaryDirectory(prefix="vp_c14_") as d:
-        timer = threading.Timer(T + 0.4, sentinel)
-        timer.daemon = True
-        timer2 = threading.Timer(T + 1.9, sentinel)
-        timer2.daemon = True
-        timer2.start()
-        table = []
-        if mode == "evaluator":
-            # evaluator-level timeout with more jobs submitted than workers: some jobs are still queued at the deadline
-            evaluator.timeout = T
-            timer.start()
-            evaluator.submit([{"x": float(i)} for i in range(case["njobs"])])
-            jobs = evaluator.gather("ALL")
-            evaluator.close()
-            for job in jobs:
-                out = job.output
-                table.append([int(job.id.split(".")[1]), int(job.status.value), int(out) if isinstance(out, (int, float)) else -1])
-        else:
-            search = RandomSearch(problem, evaluator, random_state=1, log_dir=d)
-            timer.start()
-            if mode == "search":
-                df = search.search(timeout=T)
-            elif mode == "evtimeout_search":
-                # the time budget is set on the evaluator, the search call has no `timeout` of its own
-                evaluator.timeout = T
-                df = search.search(max_evals=case["max_evals"])
-            elif mode == "search_max":
-                df = search.search(max_evals=case["max_evals"], timeout=T)
-            else:  # strict budget that may be hit in the middle of a batch
-                df = search.search(max_evals=case["max_evals"], timeout=T, max_evals_strict=True)
-            if df is not None:
-                for _, row in df.iterrows():
-                    obj = row["objective"]
-                    try:
-                        o = int(float(obj))
-                    except (TypeError, ValueError):
-                        o = -1
-                    table.append([int(row["job_id"]), int(JobStatus[row["job_status"]].value), o])
-        with lock:
-            n_at_return = len(trace)
-        time.sleep(0.3)
-        timer.cancel()
-        timer2.cancel()
-        with lock:
-            late = sum(1 for e in trace[n_at_return:] if e[1] in (1, 2, 3))
-            tr = list(trace)
-        njobs = len(storage.load_all_job_ids(evaluator._search_id))
+    hooks = {}
+    instrument(evaluator, emit, hooks)
+    table, late, tr = drive(case, evaluator, emit, snapshot, hooks)
+    njobs = len(storage.load_all_job_ids(evaluator._search_id))
     ex = getattr(evaluator, "executor", None)
     if ex is not None:
         ex.shutdown(wait=False, cancel_futures=True)
-    return njobs, tr, sorted(vals.items()), table, late
+    return njobs, tr, table, late
 
 
 def run_case_process(case):
-    """process backend: fresh interpreter (vp.props.c14_child), shared log through a multiprocessing manager"""
+    """process / loky backend: fresh interpreter (vp.props.c14_child), shared log through a multiprocessing manager"""
     import json
     import subprocess
     import sys
@@ -207,69 +385,158 @@ def run_case_process(case):
         json.dump(case, f)
         path = f.name
     try:
-        p = subprocess.run([sys.executable, "-m", "vp.props.c14_child", path], stdout=subprocess.PIPE, stderr=subprocess.PIPE, text=True, timeout=80)
+        p = subprocess.run([sys.executable, "-m", "vp.props.c14_child", path], stdout=subprocess.PIPE, stderr=subprocess.PIPE, text=True, timeout=100)
     finally:
         os.unlink(path)
     if "@@RESULT@@" not in p.stdout:
         raise RuntimeError("process-backend child failed: " + p.stderr[-1500:])
     o = json.loads(p.stdout.split("@@RESULT@@")[1].strip())
-    return o["njobs"], o["trace"], [tuple(v) for v in o["vals"]], o["table"], o["late"]
+    return o["njobs"], o["trace"], o["table"], o["late"]
+
+
+def budget_code(case):
+    return 2 if case.get("mode", "search") in ("evaluator", "evtimeout_search", "early_close") else 1
 
 
 def check(case):
-    njobs, tr, vals, table, late = run_case_process(case) if case["backend"] == "process" else run_case(case)
-    ok, j, clause = model().call(F_CHECK, [njobs, tr, [list(v) for v in vals], table, -1, late])
+    mode = case.get("mode", "search")
+    njobs, tr, table, late = run_case_process(case) if case["backend"] in ("process", "loky") else run_case(case)
     statuses = sorted(set(r[1] for r in table))
-    res = dict(ok=True, kind="oracle", clause="", nontrivial=(2 in statuses and 4 in statuses),
-               sig={"backend": case["backend"], "mode": case.get("mode", "search")},
-               desc=["mode=" + case.get("mode", "search"), "backend=" + case["backend"], "workers=%d" % case["workers"], "timeout=%d" % case["timeout"], "jobs=%d" % njobs,
-                     "mixed_done_cancelled" if (2 in statuses and 4 in statuses) else "uniform"])
-    if not ok:
-        jtrace = [e for e in tr if e[0] == j or e[1] == 9]
-        return dict(res, ok=False, clause=CLAUSE.get(clause, str(clause)),
-                    detail=dict(job=j, job_trace=jtrace[:80], row=[r for r in table if r[0] == j], njobs=njobs, rows=len(table), late=late))
+    sig = {"backend": case["backend"], "mode": mode}
+    kinds = sorted(set(p[0] for p in case["plan"]))
+    res = dict(ok=True, kind="oracle", clause="", nontrivial=(2 in statuses and 4 in statuses), sig=sig,
+               desc=["mode=" + mode, "backend=" + case["backend"], "search=" + case.get("search", "random"), "workers=%d" % case["workers"], "timeout=%d" % case["timeout"],
+                     "jobs=%d" % njobs, "mixed_done_cancelled" if (2 in statuses and 4 in statuses) else "uniform"] + ["plan:" + k for k in kinds])
+    # ---- (b) the per-job oracle (not for the close()-kills of early_close: close() does not wait for the run-functions) ----
+    if mode != "early_close":
+        old = [e for e in tr if e[1] in OLD_KINDS]
+        vals = sorted({e[0]: e[2] for e in tr if e[1] == K_RET}.items())
+        ok, j, clause = model().call(F_CHECK, [njobs, [[e[0], e[1], 0 if e[1] == K_RET else e[2]] for e in old], [list(v) for v in vals], table, -1, late])
+        if not ok:
+            name = CLAUSE.get(clause, str(clause))
+            return dict(res, ok=False, clause=name, sig=dict(sig, clause=name),
+                        detail=dict(job=j, job_trace=[e for e in old if e[0] == j or e[1] == K_S][:80], row=[r for r in table if r[0] == j], njobs=njobs, rows=len(table), late=late))
+    # ---- (c) the global model ----
+    acc, pos, code, races, phase, agree, mjobs = model().call(F_ACCEPT, [case["workers"], budget_code(case), [e[:3] for e in tr], table, -1])
+    res["desc"].append("deadline_races=%d" % min(races, 3))
+    if not acc:
+        e = tr[pos]
+        name = ACCEPT_CLAUSE.get((e[1], e[2]) if e[1] == K_W else e[1], "model:event_%d" % e[1])
+        # a rejection that contradicts a theorem about the jobs' fate ((b), (c), (d), poll / value clauses) is a failure of the
+        # property; one about the harness protocol (gather / close / submit nesting) only says that model and code disagree
+        kind = "corr" if e[1] in (K_SUBMIT, K_GIN, K_GOUT, K_CIN, K_RETURN, K_AGAIN, K_S) else "oracle"
+        return dict(res, ok=False, kind=kind, clause=name, sig=dict(mode=mode, clause=name),
+                    detail=dict(position=pos, code=code, event=e, event_text=describe(e), context=[describe(x) for x in tr[max(0, pos - 25):pos + 3]], njobs=njobs, table=table[:40]))
+    if phase != 5:
+        return dict(res, ok=False, kind="corr", clause="model:not_returned", sig=dict(sig, clause="model:not_returned"), detail=dict(phase=phase))
+    if not agree or mjobs != njobs:
+        return dict(res, ok=False, kind="oracle", clause="table_differs_from_model", sig=dict(sig, clause="table_differs_from_model"),
+                    detail=dict(table=table[:60], model_jobs=mjobs, njobs=njobs, tail=[describe(x) for x in tr[-40:]]))
     return res
 
 
-MODES = ["search", "evaluator", "search_strict", "evtimeout_search", "search_max"]
+def describe(e):
+    return "%6d  %s" % (e[3], describe3(e[:3])) if len(e) > 3 else describe3(e)
+
+
+def describe3(e):
+    j, k, a = e
+    names = {K_W: "W", K_START: "start", K_POLL: "poll", K_RET: "return", K_FIN: "execute-returns", K_SUBMIT: "submit(", K_GIN: "gather{", K_GOUT: "}gather", K_S0: "EARLY-SENTINEL",
+             K_S: "SENTINEL", K_CIN: "close{", K_COUT: "}close", K_RETURN: "search-returned", K_AGAIN: "search-again", K_COLLECTED: "collected"}
+    if k in (K_W, K_POLL):
+        return "%s j%d %s" % (names[k], j, ST_NAME.get(a, a))
+    if k in (K_START, K_FIN, K_COLLECTED):
+        return "%s j%d" % (names[k], j)
+    if k == K_RET:
+        return "return j%d -> %s" % (j, a)
+    if k == K_SUBMIT:
+        return "submit(%d)" % a
+    return names.get(k, str(k))
+
+
+MODES = ["search", "evaluator", "search_strict", "evtimeout_search", "search_max", "two_calls", "early_close"]
+
+
+def behaviours(rng, T):
+    plan = []
+    for _ in range(rng.randint(2, 5)):
+        kind = rng.choice(["short", "long", "long", "nopoll", "edge"])
+        val = rng.choice(["id", "id", "zero"])
+        if kind == "short":
+            plan.append(["short", rng.choice([0.15, 0.25, 0.4]), rng.choice([0.05, 0.1]), 0, val])
+        elif kind == "nopoll":
+            plan.append(["nopoll", rng.choice([0.1, 0.3, 0.45]), 0, 0, val])
+        elif kind == "edge":
+            # finishes within +-60 ms of the deadline when started with the first batch; either outcome is legal
+            plan.append([rng.choice(["nopoll", "short"]), T + rng.choice([-0.06, -0.02, 0.0, 0.02, 0.06]), 0.11, 0, val])
+        else:
+            plan.append(["long", 0, rng.choice([0.03, 0.1, 0.2]), rng.choice([0, 0, 0.2]), val])
+    if not any(p[0] in ("short", "nopoll") and p[1] < 0.5 for p in plan):
+        plan[0] = ["short", 0.2, 0.05, 0, "id"]
+    if not any(p[0] == "long" for p in plan):
+        plan[-1] = ["long", 0, 0.1, 0, "id"]
+    return plan
 
 
 def gen(count, pairs):
     def g(rng, tier):
         for i in range(count):
             T = rng.choice([1, 1, 2])
-            plan = []
-            for _ in range(rng.randint(2, 5)):
-                kind = rng.choice(["short", "long", "long"])
-                if kind == "short":
-                    plan.append(["short", rng.choice([0.15, 0.25, 0.4]), rng.choice([0.05, 0.1]), 0, rng.choice(["id", "id", "zero"])])
-                else:
-                    plan.append(["long", 0, rng.choice([0.03, 0.1, 0.2]), rng.choice([0, 0, 0.2]), rng.choice(["id", "zero"])])
-            if not any(p[0] == "short" for p in plan):
-                plan[0] = ["short", 0.2, 0.05, 0]
-            if not any(p[0] == "long" for p in plan):
-                plan[-1] = ["long", 0, 0.1, 0]
+            plan = behaviours(rng, T)
             W = rng.choice([1, 2, 4])
             mode, backend = pairs[i % len(pairs)]
-            c = dict(timeout=T, workers=W, backend=backend, plan=plan, mode=mode)
+            c = dict(timeout=T, workers=W, backend=backend, plan=plan, mode=mode, search=rng.choice(["random", "cbo"]))
+            longs = [p for p in plan if p[0] == "long"]
+            if mode in ("search", "two_calls") and not any(p[4] == "zero" for p in longs):
+                longs[0][4] = "zero"  # a cancelled job that returns a falsy value
             if mode == "evaluator":
                 c["timeout"] = 2  # a job queued at the deadline with a stale budget would run 2 s more: visible beyond the slack
                 c["njobs"] = W + rng.randint(1, 2 * W + 1)
                 # jobs queued behind the workers must not all finish before the deadline: long jobs only
-                c["plan"] = [p for p in plan if p[0] == "long"] * 2 + [["short", 0.3, 0.1, 0]]
+                c["plan"] = longs * 2 + [["short", 0.3, 0.1, 0, "id"]]
             elif mode == "evtimeout_search":
                 # enough budget left at the expiry that a search which keeps submitting is still doing so 2 s later
                 c["max_evals"] = 400
-                c["plan"] = [p for p in plan if p[0] == "long"]
-            elif mode in ("search_strict", "search_max"):
+                c["plan"] = longs
+            elif mode == "search_strict":
+                # the strict budget is hit in the middle of a batch (max_evals < workers: in the very first one): the loop is left
+                # through MaximumJobsSpawnReached with tasks that have not started yet
+                c["workers"] = W = rng.choice([2, 4])
+                c["max_evals"] = rng.choice([W - 1, W - 1, W + 1, 2 * W + 1])
+                c["plan"] = longs  # every job runs until told to cancel
+            elif mode == "search_max":
                 c["max_evals"] = rng.choice([W + 1, 2 * W + 1, 3]) if W > 1 else rng.choice([2, 3])
-                c["plan"] = [p for p in plan if p[0] == "long"]  # every job runs until told to cancel
+                c["plan"] = longs
+            elif mode == "two_calls":
+                # the second call must get a fresh budget (early sentinel 0.5 s before its deadline)
+                c["first_timeout"] = 1
+                c["plan"] = [p for p in plan if not (p[0] != "long" and p[1] > 0.5)]
+            elif mode == "early_close":
+                # job 0 returns as soon as it is told; the others keep working 0.8 s in CANCELLING: close() finds them there
+                c["timeout"] = 1
+                c["workers"] = W = max(W, 2)
+                c["njobs"] = W
+                c["search"] = "random"
+                c["plan"] = [["long", 0, 0.05, 0, "id"]] + [["long", 0, rng.choice([0.05, 0.1]), 0.8, rng.choice(["id", "zero"])] for _ in range(W - 1)]
             yield c
     return g
 
 
+def shrink(case):
+    """fewer behaviours / fewer workers / plain RandomSearch"""
+    if case.get("search") == "cbo":
+        yield dict(case, search="random")
+    if case.get("mode") != "early_close":
+        if case["workers"] > 1:
+            yield dict(case, workers=case["workers"] // 2)
+        for i in range(len(case["plan"])):
+            if len(case["plan"]) > 1:
+                yield dict(case, plan=case["plan"][:i] + case["plan"][i + 1:])
+
+
 def streams(tier):
     th = tier == "thorough"
-    # every (mode, backend) pair occurs: serial and thread twice per round, process once
-    pairs = [(m, b) for b in ("serial", "thread", "process", "thread", "serial") for m in MODES]
-    return [Stream("timeout_searches", gen(100 if th else 25, pairs), check, None, timeout=150)]
+    # every (mode, backend) pair occurs: thread and serial twice per round, process once (loky: thorough only)
+    backs = ("serial", "thread", "process", "thread", "serial") + (("loky",) if th else ())
+    pairs = [(m, b) for b in backs for m in MODES]
+    return [Stream("timeout_searches", gen(252 if th else 35, pairs), check, shrink, timeout=180)]
